@@ -38,7 +38,7 @@ PLAN = {
 }
 KNOWN_F10 = "identifier-not-persisted-because-directory-absent"
 CANON = re.compile(r"^[0-9a-f]{8}-[0-9a-f]{4}-[0-9a-f]{4}-[0-9a-f]{4}-[0-9a-f]{12}$")
-OPS = ["read", "read", "read", "regen", "register", "unregister", "delreg", "delunreg", "plant", "mkdir", "faulty"]
+OPS = ["read", "read", "read", "regen", "register", "unregister", "delreg", "delunreg", "plant", "mkdir", "faulty", "rhsm"]
 ID_FORMS = {
     "canonical": "dc194312-de5f-44a1-a7d0-c2d1b3f4e5a6",
     "upper": "DC194312-DE5F-44A1-A7D0-C2D1B3F4E5A6",
@@ -78,6 +78,9 @@ def gen_case(rng, tier, idx):
                         rng.choice(["link_victim", "link_dangling", "link_dir", "link_victim_rel"])])
         elif op == "mkdir":
             ops.append([op, [rng.random() < 0.6, rng.random() < 0.6]])
+        elif op == "rhsm":
+            # the subscription-manager identity appears, disappears or changes between two client runs
+            ops.append([op, rng.choice([None, "11111111-2222-4333-8444-555555555555", "99999999-8888-4777-8666-555555555555"])])
         elif op == "faulty":
             # a registration / unregistration during which the n-th removal of a file fails (permission denied)
             ops.append([rng.choice(["register", "unregister"]), {"fail_remove": rng.randint(1, 4)}])
@@ -250,6 +253,10 @@ def run_case(spec, ctx):
                 for p in (constants.registered_files if name == "delreg" else constants.unregistered_files):
                     if os.path.lexists(p):
                         ctx.violation("marker-survived-its-deletion", dict(w, path=os.path.basename(p)))
+            elif name == "rhsm":
+                rhsm = op[1]
+                u._get_rhsm_identity = lambda _v=op[1]: _v
+                ctx.count("subscription_identity_changes")
             elif name == "plant":
                 if plant(op[1], op[2]):
                     ctx.count("symlinks_planted")
